@@ -26,8 +26,23 @@ LEVEL = "proof"
 PID = "C06"
 
 
+BIG_RATIOS = [(1, 32), (1, 40), (1, 64), (1, 128), (750, 48000), (1200, 48000), (1, 100), (3, 128), (64, 1), (40, 1), (100, 1), (128, 3)]
+
+
 def gen_iso_job(rng, ctx, force=None):
     kv, vr = cl.gen_real_cfg(rng)
+    wide = rng.chance(.45)
+    if wide:
+        # the whole configuration space of the constant-rate planner (checks/crcommon.gen_config: every recipe, steep filters, roll-offs,
+        # non-linear phase, precision, runtime knobs), with large up- and down-sampling factors favoured: whatever the planner sets up
+        # once for the first channel and shares with the others (filter design, padding, preload, phase) is reached
+        from checks import crcommon
+        cfg, _ = crcommon.gen_config(rng, allow_nonlinear=True, max_up=130.0, max_down=200.0)
+        if rng.chance(.4):
+            cfg["ir"], cfg["or"] = map(str, rng.choice(BIG_RATIOS))
+            if rng.chance(.6):
+                cfg["phase"] = rng.choice([0, 10, 25, 45, 55, 75, 100])
+        kv, vr = dict(cfg), False
     ch = rng.choice([1, 2, 2, 3, 3, 4, 5, 6])
     lay_i, lay_o = rng.below(2), rng.below(2)
     it, ot = rng.below(4), rng.below(4)
@@ -42,6 +57,8 @@ def gen_iso_job(rng, ctx, force=None):
         kv.update(force)
     N = rng.choice([0, 1, 17, 1000, 5000]) if rng.chance(.3) else rng.below(12000 if ctx.quick else 40000)
     ratio = float(kv["ir"]) / float(kv["or"])
+    if wide:
+        N = min(N, int((60000 if ctx.quick else 200000) * ratio) + 8)       # bounded output volume for large up-sampling factors
     ops = cl.gen_schedule(rng, N, vr, ratio)
     return kv, ops
 
